@@ -1,5 +1,5 @@
 (* C09 at the level of characters with NESTED block comments as separators (ShowNested.nseparator): the block comment scanner of
-   the tokenizer model (TokenModel.block_go: position, `start`, i32 depth counter) passes over the content of a well-bracketed
+   the tokenizer model (TokenModel.block_go: position, `start`, usize depth counter) passes over the content of a well-bracketed
    comment and comes back with the same depth (block_go_body), so the comment step consumes exactly the comment (skips_nblock);
    the rest follows ShowProofs.v. *)
 From Coq Require Import ZArith NArith List Bool Arith Lia ZifyBool ZifyNat ZifyN.
@@ -18,14 +18,14 @@ Arguments N.min : simpl never.
 Lemma block_go_cons b nx rest p start depth :
   block_go (b :: nx :: rest) p start depth =
   let '(start', depth') :=
-    if (b =? 47) && (start <=? p)%nat && (nx =? 42) then (p + 2, wrap_i32 (depth + 1))%nat
-    else if (b =? 42) && (start <=? p)%nat && (nx =? 47) then (p + 2, wrap_i32 (depth - 1))%nat
+    if (b =? 47) && (start <=? p)%nat && (nx =? 42) then (p + 2, wrap_usize (depth + 1))%nat
+    else if (b =? 42) && (start <=? p)%nat && (nx =? 47) then (p + 2, wrap_usize (depth - 1))%nat
     else (start, depth) in
   if (depth' =? 0)%Z then Some (p - 2)%nat else block_go (nx :: rest) (S p) start' depth'.
 Proof. reflexivity. Qed.
 
-Lemma wrap_i32_small z : (-2147483648 <= z <= 2147483647)%Z -> wrap_i32 z = z.
-Proof. intros H. unfold wrap_i32. rewrite Z.mod_small by lia. lia. Qed.
+Lemma wrap_usize_small z : (0 <= z < 18446744073709551616)%Z -> wrap_usize z = z.
+Proof. intros H. unfold wrap_usize. rewrite Z.mod_small by lia. lia. Qed.
 
 (* a byte that opens nothing: passed over *)
 Lemma block_go_pass b nx rest p start depth : depth <> 0%Z ->
@@ -45,7 +45,7 @@ Proof.
 Qed.
 
 Lemma block_go_body : forall d body, comment_body d body -> forall p start depth T,
-  (start <= p)%nat -> (1 <= depth)%Z -> (depth + Z.of_nat d <= 2147483647)%Z ->
+  (start <= p)%nat -> (1 <= depth)%Z -> (depth + Z.of_nat d <= 18446744073709551615)%Z ->
   exists start', (start' <= p + length body)%nat /\
     block_go (body ++ 42 :: 47 :: T) p start depth = block_go (42 :: 47 :: T) (p + length body) start' depth.
 Proof.
@@ -60,7 +60,7 @@ Proof.
     (* the opener *)
     rewrite block_go_cons.
     replace ((47 =? 47) && (start <=? p)%nat && (42 =? 42)) with true by (symmetry; apply andb_true_intro; split; [apply andb_true_intro; split; [reflexivity|now apply Nat.leb_le]|reflexivity]).
-    rewrite wrap_i32_small by lia. cbv iota beta.
+    rewrite wrap_usize_small by lia. cbv iota beta.
     replace (depth + 1 =? 0)%Z with false by lia.
     (* its star lies before `start` *)
     destruct (first_or_app inner (r ++ 42 :: 47 :: T)) as [t Et]. rewrite Et.
@@ -74,7 +74,7 @@ Proof.
     replace ((42 =? 47) && (s1 <=? S (S p) + length inner)%nat && (47 =? 42)) with false by reflexivity.
     replace ((42 =? 42) && (s1 <=? S (S p) + length inner)%nat && (47 =? 47)) with true
       by (symmetry; apply andb_true_intro; split; [apply andb_true_intro; split; [reflexivity|now apply Nat.leb_le]|reflexivity]).
-    replace (depth + 1 - 1)%Z with depth by lia. rewrite wrap_i32_small by lia. cbv iota beta.
+    replace (depth + 1 - 1)%Z with depth by lia. rewrite wrap_usize_small by lia. cbv iota beta.
     replace (depth =? 0)%Z with false by lia.
     (* its slash lies before `start` *)
     destruct (first_or_app r T) as [t2 Et2]. rewrite Et2.
@@ -97,7 +97,7 @@ Proof.
   replace ((42 =? 47) && (s' <=? 2 + length body)%nat && (47 =? 42)) with false by reflexivity.
   replace ((42 =? 42) && (s' <=? 2 + length body)%nat && (47 =? 47)) with true
     by (symmetry; apply andb_true_intro; split; [apply andb_true_intro; split; [reflexivity|now apply Nat.leb_le]|reflexivity]).
-  cbv iota beta. change (wrap_i32 (1 - 1) =? 0)%Z with true. cbv iota. f_equal. lia.
+  cbv iota beta. change (wrap_usize (1 - 1) =? 0)%Z with true. cbv iota. f_equal. lia.
 Qed.
 
 (* ================================================================ the comment step (as LexRun.skips_block, any content the scanner passes) *)
